@@ -164,7 +164,7 @@ def main(tier, seed, t0):
             col.discrepancy(sig, what, rec["case"])
         col.evaluations += 1
         col.labels["replayed"] += 1
-    total = 400 if tier == "quick" else 20000
+    total = 1200 if tier == "quick" else 20000
     nsh = common.NCPU * (1 if tier == "quick" else 4)
     col.merge(common.run_shards(shard, [(common.shard_seed(seed, i), total // nsh + 1) for i in range(nsh)]))
     lianrun.cleanup_scratch()
